@@ -47,6 +47,9 @@ func RunHistory(seed uint64, r *rng.R, work string, opt apphist.Options, cfg Con
 		}
 		// scenario templates (shapes random generation reaches too rarely)
 		quiet := s.Quiet(s.Height + 1)
+		if cfg.Prop == "C17" && cfg.EVM && b == 1 && s.ForceScenario == 0 {
+			s.ForceScenario = 22 // deploy the balance-view contract early: the vm_call probes need it
+		}
 		if planned > 0 && b >= 2 && !quiet && s.ForceScenario == 0 {
 			s.ForceScenario = planned // every template is planned in some history of every run
 		}
@@ -114,6 +117,12 @@ func RunHistory(seed uint64, r *rng.R, work string, opt apphist.Options, cfg Con
 		}
 		if !s.Commit() {
 			break
+		}
+		if cfg.EVM && (cfg.Prop == "C17" || cfg.Prop == "") {
+			if m, ok := obs.(*appmon.Monitor); ok && m != nil {
+				k, d := s.VmCallProbe()
+				m.Report(s, "C17", k, d, "C17.vmcall-probe")
+			}
 		}
 		if cfg.Queries {
 			for q := r.Intn(4); q > 0; q-- {
